@@ -42,7 +42,7 @@ def handleDisp (fs : List (String × String)) : Option String := do
 
 def parseAOp (s : String) : Option AOp :=
   match s.splitOn ":" with
-  | ["A"] => some .assign | ["R"] => some .reset
+  | ["A"] => some .assign | ["R"] => some .reset | ["P"] => some .apply
   | ["C", w] => w.toNat?.map .completed
   | _ => none
 
